@@ -164,10 +164,12 @@ Definition to_event (e : tev) : list event :=
 
 Inductive case :=
 | CHist (universe keys : list Z) (steps : list hstep)
-| CTrace (universe : list Z) (evs : list tev) (final_docs : list (Z * option Z)).
+| CTrace (universe : list Z) (evs : list tev) (final_docs : list (Z * option Z))
+| CMulti (cs : list case).
 
-Definition check (c : case) : bool :=
+Fixpoint check (c : case) : bool :=
   match c with
+  | CMulti cs => forallb check cs
   | CHist universe keys steps => check_hist steps [] [] universe keys
   | CTrace universe evs final =>
       match trun init evs 0 with
@@ -182,7 +184,8 @@ Definition check (c : case) : bool :=
 
 Inductive expl :=
 | EHist (expected : list obs)
-| ETrace (rejected_at : option Z) (model_root : list pseg) (lookup : list (Z * option Z)).
+| ETrace (rejected_at : option Z) (model_root : list pseg) (lookup : list (Z * option Z))
+| EMulti (l : list (bool * expl)).
 
 Fixpoint explain_hist (steps : list hstep) (docs ints : al) (universe keys : list Z) : list obs :=
   match steps with
@@ -193,8 +196,9 @@ Fixpoint explain_hist (steps : list hstep) (docs ints : al) (universe keys : lis
       expected_obs docs' ints' universe keys :: explain_hist rest docs' ints' universe keys
   end.
 
-Definition explain (c : case) : expl :=
+Fixpoint explain (c : case) : expl :=
   match c with
+  | CMulti cs => EMulti (map (fun c' => (check c', explain c')) cs)
   | CHist universe keys steps => EHist (explain_hist steps [] [] universe keys)
   | CTrace universe evs _ =>
       let '(r, s) := trun init evs 0 in
